@@ -3,9 +3,9 @@
 # runs every rule (both configurations) on each small behaviour-preserving patch, applied in memory;
 # with "verify": also rebuilds and runs the pinned suite on each patch in a scratch worktree.
 export GOFLAGS=-mod=mod GOPROXY=off GOSUMDB=off GOTOOLCHAIN=local GOWORK=off
-D=$1
+D=$(realpath $1)
 for f in $(ls $D/h*.diff 2>/dev/null | sort -V); do
-  out=$(/verif/bin/zapxlint list -patch $f 2>&1 | grep "^\s*\[\|LOAD ERR\|checker panic\|stale\|does not apply" | grep -v "R16/mergeToWriter/field-table-at-offset-0" | sort | uniq -c)
+  out=$(/verif/bin/zapxlint list -patch $f 2>&1 | grep "^\s*\[\|LOAD ERR\|checker panic\|^stale\|does not apply" | grep -v "R16/mergeToWriter/field-table-at-offset-0" | sort | uniq -c)
   if [ -z "$out" ]; then echo "quiet  $f"; else echo "ALARM  $f"; echo "$out" | sed 's/^/        /'; fi
   if [ "$2" = verify ]; then
     WT=/tmp/hc-$$; git -C /repo worktree add -q --detach $WT HEAD
